@@ -225,6 +225,10 @@ def friction_pairs(chk: core.Check, n):
         which = rng.choice(['Production Well Diameter', 'Injection Well Diameter'])
         a, b = dict(p), dict(p)
         a[which], b[which] = d1, d2
+        if k % 6 == 5:
+            # the smaller well is the one the user did not state: the declared default (8, i.e. inches) against a stated larger one
+            d1, d2 = 8.0, rng.choice([9, 12, 20, 30])
+            a.pop(which), b.update({which: d2})
         pairs.append((which, d1, d2, a, b))
     res = geo.pmap(_run, [x[3] for x in pairs] + [x[4] for x in pairs], chk.scratch)
     m = len(pairs)
@@ -240,9 +244,13 @@ def friction_pairs(chk: core.Check, n):
         if not (isinstance(x, list) and isinstance(y, list) and len(x) == len(y)):
             chk.tag('friction/no-series')
             continue
-        if not da < db:
+        # the enlargement is judged on what the user wrote (documented reading: a figure above 2 is inches), not on what the model made of it
+        wa, wb = (d1 * 0.0254 if d1 > 2 else d1), (d2 * 0.0254 if d2 > 2 else d2)
+        if not wa < wb:
             chk.tag('friction/heuristic-reorders-diameters')   # e.g. 1.9 (m) vs 3 (inches = 0.076 m): not an enlargement
             continue
+        if which not in a:
+            chk.tag('friction/default-vs-stated')
         chk.tag('friction/' + key)
         chk.case(('friction', which, d1, d2, a['Production Flow Rate per Well']), True)
         if any(q > p_ * (1 + 1e-12) + 1e-15 for p_, q in zip(x, y)):
